@@ -1,2 +1,291 @@
+// Second emitter (DESIGN.md 2.9): loop-free integer kernel -> SMT-LIB over mathematical integers.
+// Every iN value is an Int in [0, 2^N).  add/sub/trunc/zext/sext/icmp/select/udiv/urem/shifts by
+// constants are emitted EXACTLY (with explicit wrap-around via ite / mod by a constant), so they need
+// no side condition.  mul (symbolic x symbolic) is emitted as the plain product; for every mul a side
+// obligation "product < 2^N under the path condition" is produced, and udiv/urem produce "divisor != 0".
+// Once the side obligations are unsat the Int encoding coincides with the machine semantics.
 #include "ir2c.h"
-void emitSmtInt(Module& M, Function& F, raw_ostream& os) { refuse("smt-int emitter not built yet"); }
+
+namespace {
+struct SmtEmitter {
+  Function& F;
+  raw_ostream& os;
+  std::map<const Value*, std::string> name;
+  std::map<const BasicBlock*, std::string> bcond;
+  std::vector<std::pair<std::string, std::string>> lets; // (name, term)
+  std::vector<std::string> sideNames;
+  std::vector<std::string> sideDesc;
+  std::vector<std::pair<const Argument*, std::vector<std::pair<std::string, std::string>>>> outs; // out-param stores (cond,val)
+  int n = 0;
+
+  SmtEmitter(Function& f, raw_ostream& o) : F(f), os(o) {}
+
+  static std::string pow2(unsigned b) {
+    APInt v = APInt::getOneBitSet(b + 1, b);
+    SmallString<40> s;
+    v.toStringUnsigned(s);
+    return std::string(s.str());
+  }
+  std::string val(const Value* V) {
+    if (auto* CI = dyn_cast<ConstantInt>(V)) {
+      SmallString<40> s;
+      CI->getValue().toStringUnsigned(s);
+      return std::string(s.str());
+    }
+    if (isa<UndefValue>(V)) return "0";
+    auto it = name.find(V);
+    if (it == name.end()) refuse("smt-int: value without a term in " + F.getName().str());
+    return it->second;
+  }
+  std::string def(const Value* V, const std::string& term) {
+    std::string nm = "v" + std::to_string(n++);
+    lets.push_back({nm, term});
+    name[V] = nm;
+    return nm;
+  }
+  std::string tmp(const std::string& term) {
+    std::string nm = "t" + std::to_string(n++);
+    lets.push_back({nm, term});
+    return nm;
+  }
+  std::string sgn(const std::string& x, unsigned b) { // signed interpretation
+    return "(ite (< " + x + " " + pow2(b - 1) + ") " + x + " (- " + x + " " + pow2(b) + "))";
+  }
+  void side(const std::string& cond, const BasicBlock* BB, const std::string& what) {
+    std::string nm = "side" + std::to_string(sideNames.size());
+    lets.push_back({nm, "(=> " + bcond[BB] + " " + cond + ")"});
+    sideNames.push_back(nm);
+    sideDesc.push_back(what);
+  }
+
+  void run() {
+    // topological order of blocks (function must be loop-free)
+    std::vector<BasicBlock*> order;
+    std::map<BasicBlock*, int> indeg;
+    for (BasicBlock& B : F) indeg[&B] = 0;
+    for (BasicBlock& B : F)
+      for (BasicBlock* S : successors(&B)) indeg[S]++;
+    std::vector<BasicBlock*> wl{&F.getEntryBlock()};
+    while (!wl.empty()) {
+      BasicBlock* B = wl.back();
+      wl.pop_back();
+      order.push_back(B);
+      for (BasicBlock* S : successors(B))
+        if (--indeg[S] == 0) wl.push_back(S);
+    }
+    if (order.size() != F.size()) refuse("smt-int: function has a loop (or unreachable blocks): " + F.getName().str());
+    std::vector<const Argument*> inArgs;
+    for (Argument& A : F.args()) {
+      if (A.getType()->isIntegerTy()) {
+        name[&A] = "a" + std::to_string(A.getArgNo());
+        inArgs.push_back(&A);
+      } else if (A.getType()->isPointerTy())
+        outs.push_back({&A, {}});
+      else
+        refuse("smt-int: argument type");
+    }
+    std::map<std::pair<const BasicBlock*, const BasicBlock*>, std::string> edge;
+    std::vector<std::pair<std::string, std::string>> rets; // (cond, value)
+    for (BasicBlock* B : order) {
+      if (B == &F.getEntryBlock())
+        bcond[B] = "true";
+      else {
+        std::string c = "(or";
+        for (BasicBlock* P : predecessors(B)) c += " " + edge[{P, B}];
+        c += ")";
+        bcond[B] = tmp(c);
+      }
+      for (Instruction& I : *B) {
+        Type* Ty = I.getType();
+        unsigned b = Ty->isIntegerTy() ? Ty->getIntegerBitWidth() : 0;
+        auto A = [&](unsigned i) { return val(I.getOperand(i)); };
+        switch (I.getOpcode()) {
+        case Instruction::PHI: {
+          auto& P = cast<PHINode>(I);
+          std::string t = val(P.getIncomingValue(P.getNumIncomingValues() - 1));
+          for (int k = (int)P.getNumIncomingValues() - 2; k >= 0; --k)
+            t = "(ite " + edge[{P.getIncomingBlock(k), B}] + " " + val(P.getIncomingValue(k)) + " " + t + ")";
+          def(&I, t);
+          break;
+        }
+        case Instruction::Add: {
+          std::string s = tmp("(+ " + A(0) + " " + A(1) + ")");
+          def(&I, "(ite (< " + s + " " + pow2(b) + ") " + s + " (- " + s + " " + pow2(b) + "))");
+          break;
+        }
+        case Instruction::Sub: {
+          std::string s = tmp("(- " + A(0) + " " + A(1) + ")");
+          def(&I, "(ite (>= " + s + " 0) " + s + " (+ " + s + " " + pow2(b) + "))");
+          break;
+        }
+        case Instruction::Mul: {
+          std::string s = def(&I, "(* " + A(0) + " " + A(1) + ")");
+          if (!isa<ConstantInt>(I.getOperand(0)) && !isa<ConstantInt>(I.getOperand(1)))
+            side("(< " + s + " " + pow2(b) + ")", B, "mul does not wrap: " + std::string(I.getName()));
+          else { // constant factor: exact via mod
+            name[&I] = tmp("(mod " + s + " " + pow2(b) + ")");
+          }
+          break;
+        }
+        case Instruction::UDiv:
+          side("(not (= " + A(1) + " 0))", B, "udiv divisor non-zero");
+          def(&I, "(div " + A(0) + " " + A(1) + ")");
+          break;
+        case Instruction::URem:
+          side("(not (= " + A(1) + " 0))", B, "urem divisor non-zero");
+          def(&I, "(mod " + A(0) + " " + A(1) + ")");
+          break;
+        case Instruction::Shl: {
+          auto* C = dyn_cast<ConstantInt>(I.getOperand(1));
+          if (!C) refuse("smt-int: shl by non-constant");
+          def(&I, "(mod (* " + A(0) + " " + pow2(C->getZExtValue()) + ") " + pow2(b) + ")");
+          break;
+        }
+        case Instruction::LShr: {
+          auto* C = dyn_cast<ConstantInt>(I.getOperand(1));
+          if (!C) refuse("smt-int: lshr by non-constant");
+          def(&I, "(div " + A(0) + " " + pow2(C->getZExtValue()) + ")");
+          break;
+        }
+        case Instruction::And: {
+          auto* C = dyn_cast<ConstantInt>(I.getOperand(1));
+          if (b == 1) { def(&I, "(ite (and (= " + A(0) + " 1) (= " + A(1) + " 1)) 1 0)"); break; }
+          if (!C || !(C->getValue() + 1).isPowerOf2()) refuse("smt-int: and with non-mask");
+          def(&I, "(mod " + A(0) + " " + pow2((C->getValue() + 1).logBase2()) + ")");
+          break;
+        }
+        case Instruction::Or:
+          if (b != 1) refuse("smt-int: or on wide integers");
+          def(&I, "(ite (or (= " + A(0) + " 1) (= " + A(1) + " 1)) 1 0)");
+          break;
+        case Instruction::Xor:
+          if (b != 1) refuse("smt-int: xor on wide integers");
+          def(&I, "(ite (= " + A(0) + " " + A(1) + ") 0 1)");
+          break;
+        case Instruction::ZExt: def(&I, A(0)); break;
+        case Instruction::Trunc: def(&I, "(mod " + A(0) + " " + pow2(b) + ")"); break;
+        case Instruction::SExt: {
+          unsigned sb = I.getOperand(0)->getType()->getIntegerBitWidth();
+          def(&I, "(ite (< " + A(0) + " " + pow2(sb - 1) + ") " + A(0) + " (+ " + A(0) + " (- " + pow2(b) + " " + pow2(sb) + ")))");
+          break;
+        }
+        case Instruction::ICmp: {
+          auto& C = cast<ICmpInst>(I);
+          unsigned ob = C.getOperand(0)->getType()->getIntegerBitWidth();
+          std::string x = A(0), y = A(1);
+          if (C.isSigned()) { x = sgn(x, ob); y = sgn(y, ob); }
+          const char* op = "=";
+          bool neg = false;
+          switch (C.getPredicate()) {
+          case CmpInst::ICMP_EQ: op = "="; break;
+          case CmpInst::ICMP_NE: op = "="; neg = true; break;
+          case CmpInst::ICMP_UGT: case CmpInst::ICMP_SGT: op = ">"; break;
+          case CmpInst::ICMP_UGE: case CmpInst::ICMP_SGE: op = ">="; break;
+          case CmpInst::ICMP_ULT: case CmpInst::ICMP_SLT: op = "<"; break;
+          case CmpInst::ICMP_ULE: case CmpInst::ICMP_SLE: op = "<="; break;
+          default: refuse("smt-int: icmp predicate");
+          }
+          std::string t = "(" + std::string(op) + " " + x + " " + y + ")";
+          if (neg) t = "(not " + t + ")";
+          def(&I, "(ite " + t + " 1 0)");
+          break;
+        }
+        case Instruction::Select:
+          def(&I, "(ite (= " + A(0) + " 1) " + A(1) + " " + A(2) + ")");
+          break;
+        case Instruction::Freeze: def(&I, A(0)); break;
+        case Instruction::Call: {
+          auto& CB = cast<CallBase>(I);
+          Function* c = CB.getCalledFunction();
+          if (!c || !c->isIntrinsic()) refuse("smt-int: call");
+          switch (c->getIntrinsicID()) {
+          case Intrinsic::umin: def(&I, "(ite (< " + A(0) + " " + A(1) + ") " + A(0) + " " + A(1) + ")"); break;
+          case Intrinsic::umax: def(&I, "(ite (> " + A(0) + " " + A(1) + ") " + A(0) + " " + A(1) + ")"); break;
+          case Intrinsic::lifetime_start: case Intrinsic::lifetime_end: case Intrinsic::dbg_value:
+          case Intrinsic::dbg_declare: case Intrinsic::assume: case Intrinsic::experimental_noalias_scope_decl: break;
+          default: refuse("smt-int: intrinsic " + c->getName().str());
+          }
+          break;
+        }
+        case Instruction::GetElementPtr: case Instruction::BitCast: {
+          // only to address out-parameters: resolved at the store
+          break;
+        }
+        case Instruction::Store: {
+          auto& S = cast<StoreInst>(I);
+          const Value* P = S.getPointerOperand()->stripPointerCasts();
+          int64_t off = 0;
+          if (auto* G = dyn_cast<GEPOperator>(P)) {
+            APInt o(64, 0);
+            if (!G->accumulateConstantOffset(F.getParent()->getDataLayout(), o)) refuse("smt-int: store address");
+            off = o.getSExtValue();
+            P = G->getPointerOperand()->stripPointerCasts();
+          }
+          bool found = false;
+          for (auto& o : outs)
+            if (o.first == P) {
+              if (off != 0) refuse("smt-int: store at non-zero offset of out-parameter (use one pointer per output)");
+              o.second.push_back({bcond[B], val(S.getValueOperand())});
+              found = true;
+            }
+          if (!found) refuse("smt-int: store to something that is not an out-parameter");
+          break;
+        }
+        case Instruction::Br: {
+          auto& Br = cast<BranchInst>(I);
+          if (Br.isUnconditional())
+            edge[{B, Br.getSuccessor(0)}] = bcond[B];
+          else {
+            edge[{B, Br.getSuccessor(0)}] = tmp("(and " + bcond[B] + " (= " + val(Br.getCondition()) + " 1))");
+            edge[{B, Br.getSuccessor(1)}] = tmp("(and " + bcond[B] + " (= " + val(Br.getCondition()) + " 0))");
+          }
+          break;
+        }
+        case Instruction::Ret:
+          if (auto* RV = cast<ReturnInst>(I).getReturnValue()) rets.push_back({bcond[B], val(RV)});
+          break;
+        case Instruction::Unreachable: break;
+        default:
+          refuse(std::string("smt-int: instruction ") + I.getOpcodeName());
+        }
+      }
+    }
+    // emit
+    std::string params;
+    for (auto* A : inArgs) params += "(a" + std::to_string(A->getArgNo()) + " Int) ";
+    std::string fn = sanitize(F.getName());
+    auto wrap = [&](const std::string& body) {
+      std::string s;
+      for (auto& l : lets) s += "(let ((" + l.first + " " + l.second + "))\n  ";
+      s += body;
+      for (size_t i = 0; i < lets.size(); ++i) s += ")";
+      return s;
+    };
+    os << "; generated by ir2c --smt-int from " << F.getParent()->getSourceFileName() << "\n";
+    os << "; kernel " << demangle(F.getName().str()) << ": " << inArgs.size() << " integer inputs\n";
+    for (auto* A : inArgs)
+      os << "; input a" << A->getArgNo() << " : i" << A->getType()->getIntegerBitWidth() << "\n";
+    int k = 0;
+    for (auto& o : outs) {
+      std::string t = "0";
+      for (auto& s : o.second) t = "(ite " + s.first + " " + s.second + " " + t + ")";
+      os << "(define-fun " << fn << "_out" << k++ << " (" << params << ") Int\n  " << wrap(t) << ")\n";
+    }
+    if (!rets.empty()) {
+      std::string t = rets.back().second;
+      for (int i = (int)rets.size() - 2; i >= 0; --i) t = "(ite " + rets[i].first + " " + rets[i].second + " " + t + ")";
+      os << "(define-fun " << fn << "_ret (" << params << ") Int\n  " << wrap(t) << ")\n";
+    }
+    for (size_t i = 0; i < sideNames.size(); ++i) {
+      os << "; side obligation " << i << ": " << sideDesc[i] << "\n";
+      os << "(define-fun " << fn << "_side" << i << " (" << params << ") Bool\n  " << wrap(sideNames[i]) << ")\n";
+    }
+    os << "; nsides " << sideNames.size() << "\n";
+  }
+};
+} // namespace
+
+void emitSmtInt(Module& M, Function& F, raw_ostream& os) {
+  SmtEmitter E(F, os);
+  E.run();
+}
